@@ -16,7 +16,7 @@ import credssp, nlmp
 from rdp import per_len as per_len_enc
 
 GROUP = "flow"
-MODEL_FILES = ["coq/Flow.v", "coq/FlowRun.v", "coq/Connect.v", "coq/Global.v", "coq/ClientPdus.v", "coq/CsspGate.v", "coq/CsspGateExec.v",
+MODEL_FILES = ["coq/Flow.v", "coq/FlowRun.v", "coq/FlowNla.v", "coq/FlowNlaRun.v", "coq/Connect.v", "coq/Global.v", "coq/ClientPdus.v", "coq/CsspGate.v", "coq/CsspGateExec.v",
                "coq/LayoutsConnect.v", "coq/LayoutsGlobal.v", "coq/Msg.v", "coq/BerYasna.v", "coq/Tpkt.v", "coq/Link.v"]
 PROFILES = ["debug", "release"]
 RULE = ("conforming servers over every parameter dimension: user id {1001, 1002, 1003, 1004, 1005, 65534, 65535, random}, I/O channel id "
@@ -28,11 +28,14 @@ RULE = ("conforming servers over every parameter dimension: user id {1001, 1002,
         "server stream (whole, split at every layer boundary, random, 1-byte dribble); configurations: screen sizes, all keyboard layouts, "
         "names / credentials from all of Unicode, auto logon, restricted admin, blank credentials, password or NT hash, certificate "
         "checking; and every prefix of a script (the server stops before reply k).  Observed: every unit the client wrote, raw or inside "
-        "TLS, interleaved with the release of each reply, and the results.  Non-trivial = distinct (parameter classes, outcome).")
+        "TLS, interleaved with the release of each reply, and the results.  On every NLA run the EXTRACTED reference CredSSP / NTLM server of the "
+        "theorems (coq/RefCredssp.v) is evaluated on the TSRequests the real client wrote: its replies must equal the python reference's byte for "
+        "byte and it must accept each message (session key, TSPasswordCreds per mode).  Non-trivial = distinct (parameter classes, outcome).")
 TRUSTED_BASE = ["Coq 8.16.1 kernel", "hand-written model coq/Flow.v over Connect.v / Global.v / ClientPdus.v / CsspGate.v tied to /repo by this correspondence run",
                 "coq/RefSequence.v: the reading of MS-RDPBCGR 1.3.1.1 (mandated order) and of the server PDUs (reference encoders) embodied in the spec; coq/StrictPdu.v (C04's strict parsers) as the observer of identifiers",
                 "extraction (ExtrOcamlBasic) + ocaml/flow/driver.ml", "Rust harness/src/flow.rs (threaded in-memory duplex, lock-step scripted server, native-tls acceptor with fixture identity 0; hooks model::rnd::verif)",
                 "gen/c03.py oracle with gen/strictpdu.py, gen/rdpconn.py, gen/rdp.py, gen/credssp.py, gen/nlmp.py",
+                "coq/RefCredssp.v (the reference CredSSP / NTLM server of the NLA theorems: the reading of MS-CSSP 3.1.5 / MS-NLMP 3.2.5, 3.4 embodied in the spec), tied on every NLA case to gen/credssp.py byte for byte (extracted, op refcssp, on the client's actual messages)",
                 "external, modelled as oracles: native-tls / OpenSSL (handshake, record layer: one record = one read), yasna (BER reader of the connect-response: BerYasna.v; DER of TSRequests: DerRead.v), x509-parser (public key bytes are a parameter), HashMap iteration order (one bit)"]
 ASSUMPTIONS = ["the TLS handshake with the server succeeds and delivers the server's records as the chunks of the stream (oracle tls_start)",
                "the order of the two channel joins is HashMap iteration order: either order is accepted, the model takes it as a configuration bit and the harness repeats the run until the order matches",
@@ -401,6 +404,70 @@ def expected_log(cfg, steps, nreads):
     ev.append(("c", "disc 3"))
     return ev, True
 
+# ------------------------------------------------------------------ the Coq reference CredSSP server on the client's ACTUAL messages
+# coq/RefCredssp.v (the CredSSP / NTLM server of the NLA theorems of C03), EXTRACTED into the flow driver (op `refcssp`), is
+# evaluated on the TSRequests the real client wrote in this run; its replies must be, byte for byte, the replies of the
+# python reference server (gen/credssp.py + gen/nlmp.py) that scripted the run, and it must accept each message (session key
+# recovered, TSPasswordCreds per mode).  This ties the specification the theorems quantify over to the oracle that feeds the crate.
+_REFCSSP = {"p": None}
+def _refcssp_eval(line):
+    import subprocess
+    drv = os.path.join(os.path.dirname(os.path.abspath(__file__)), "..", "ocaml", "flow", "driver")
+    if not os.path.exists(drv): return None
+    for _ in range(2):
+        p = _REFCSSP["p"]
+        if p is None or p.poll() is not None:
+            p = subprocess.Popen([drv], stdin=subprocess.PIPE, stdout=subprocess.PIPE, stderr=subprocess.DEVNULL)
+            _REFCSSP["p"] = p
+        try:
+            p.stdin.write((line + "\n").encode()); p.stdin.flush()
+            out = p.stdout.readline().decode("utf-8", "replace").strip()
+            if out: return out
+        except (BrokenPipeError, OSError):
+            pass
+        _REFCSSP["p"] = None
+    return "crashed"
+
+def script_challenge(steps):
+    """the CHALLENGE_MESSAGE inside the first CredSSP reply of the script (the default one when the script has none)"""
+    b = b"".join(bytes.fromhex(c) for st in steps if st.startswith("S:") for c in st[2:].split("/") if c != "-")
+    try: us = [u for u in split_units(b) if u[0] == 0x30]
+    except Exception: us = []
+    pos = us[0].find(b"NTLMSSP\0") if us else -1
+    return us[0][pos:] if pos >= 0 else default_challenge()
+
+def refcssp_line(cfg, chal, msgs):
+    """the parameters of the reference CredSSP server of this run, as the fields of coq/RefNlmp.v challenge_fields"""
+    flags = struct.unpack_from("<I", chal, 20)[0]
+    tn_len, tn_max, tn_off = struct.unpack_from("<HHI", chal, 12)
+    ti_len, ti_max, ti_off = struct.unpack_from("<HHI", chal, 40)
+    hdr = 56 if flags & nlmp.NEG_VERSION else 48
+    version = chal[48:56] if flags & nlmp.NEG_VERSION else bytes(8)
+    pre, ti, post = chal[hdr:ti_off], chal[ti_off:ti_off + ti_len], chal[ti_off + ti_len:]
+    return "refcssp %s %s %s %s %d %s %s %d %d %d %d %s %s %s %s %s %s" % (
+        cps_hex(cfg.user), cps_hex(cfg.dom), nlmp.nt_hash(cfg.pw).hex(), cps_hex(cfg.user.upper()), flags, hx(chal[24:32]), hx(chal[32:40]),
+        tn_len, tn_max, tn_off, ti_max, hx(version), hx(pre), hx(ti), hx(post), credssp.pubkey(0).hex(),
+        ",".join(m.hex() for m in msgs) if msgs else "-")
+
+def refcssp_check(cfg, steps, msgs):
+    """None, or why the extracted Coq reference server disagrees with the python reference on the client's messages"""
+    chal = script_challenge(steps)
+    run = nla_run(cfg, chal)
+    got = _refcssp_eval(refcssp_line(cfg, chal, msgs))
+    if got is None: return None           # no driver built (the pipeline reports that itself)
+    r1 = run.reply1(); r2 = credssp.ts_request(pub_key_auth=run.honest_pub_key_auth())
+    want_r = [r1, r2][:min(len(msgs), 2)]
+    enc = (lambda x: x.encode("utf-16-le")) if run.flags & nlmp.NEG_UNICODE else (lambda x: x.encode("utf-8"))
+    if run.restricted: d = u = pw = b""
+    else: d, u, pw = enc(cfg.dom), enc(cfg.user), enc("" if cfg.hash_mode else cfg.pw)
+    key = cfg.rnd[8:24]
+    want_st = ["start", "challenged", "authenticated:" + hx(key), "done:%s:%s:%s:%s" % (hx(key), hx(d), hx(u), hx(pw))][min(len(msgs), 3)]
+    want = "ok r=%s st=%s" % (",".join(x.hex() for x in want_r) if want_r else "-", want_st)
+    if got != want:
+        return ("the reference CredSSP server of the theorems (coq/RefCredssp.v, extracted) on the client's %d CredSSP message(s): %s ; "
+                "the python reference server / the property expects %s" % (len(msgs), got[:300], want[:300]))
+    return None
+
 # ------------------------------------------------------------------ judging one run
 def parse_out(out):
     m = re.match(r"(\S+) ev=(\S+)", out.split(" #")[0])
@@ -459,6 +526,11 @@ def oracle(line, out, expect):
         if res != "ok": return "the server conforms and the script is complete, yet the result is %s" % res
     else:
         if res == "ok": return "result ok although the server stopped before the end of the sequence"
+    # NLA: the Coq reference CredSSP server (extracted) on the TSRequests the client actually wrote
+    cssp_msgs = [bytes.fromhex(g[1][5:]) for g in got if g[0] == "c" and isinstance(g[1], str) and g[1].startswith("cssp ")]
+    if cfg.nla and cssp_msgs:
+        why = refcssp_check(cfg, steps, cssp_msgs)
+        if why: return why
     return None
 
 # ------------------------------------------------------------------ generator
